@@ -158,6 +158,17 @@ def run(ctx):
             if isinstance(x, tuple) and x[0] in ('const', 'str') and 'rustfmt' in str(x[1]):
                 return 'rustfmt'
         return 'other'
+    # every segment appended to the buffer ends its line (otherwise a prologue that ends in a `//` comment swallows what follows)
+    def ends_with_newline(a):
+        for x in walk(a):
+            if isinstance(x, tuple) and x[0] == 'str':
+                return x[1].endswith('\n')
+            if isinstance(x, tuple) and x[0] == 'const' and str(x[1]).startswith('b"'):
+                return bool(re.search(r'\\n(\\x00)?"$', x[1]))
+        return False
+    nl = [(loc(c['span']), ends_with_newline(a)) for c, a in writes]
+    ctx.ob(['C14'], 'R-TMPL', 'C14-D5|segments-newline-terminated', bool(nl) and all(v for _, v in nl),
+           'every piece appended to the output buffer (header lines, docs, prologues, each item, each accessor, epilogues) is terminated by a newline: %s' % [l for l, v in nl if not v], where)
     seq = [(what(a), c) for c, a in writes]
     kinds = [k for k, _ in seq]
     want = ['header', 'rustfmt', 'doc', 'prologue', 'item', 'extern', 'epilogue']
